@@ -5,6 +5,21 @@ import json, os
 HERE = os.path.dirname(os.path.dirname(os.path.abspath(__file__)))
 
 CHECKS = {
+    "C01": dict(
+        cat="other",
+        technique="forwarding-shape rules over MIR (unique call, dominance/post-dominance, not in a cycle, def-use origin tracing of receiver and arguments) on every generated method of an enumerated trait grammar",
+        text="the generator is a template instantiator: `each call reaches the method of the same name on the same instance exactly once, arguments in order` "
+             "is a per-function structural fact of the three emitted layers (opaque impl -> slot -> wrapper -> user method), checked for every method of "
+             "the corpus grammar and of the repository's traits. Results/state equality then follows from lossless conversions (C02/C12/C13).",
+        note="custom_impl / vtbl_only methods are excluded by the property and listed; user implementations assumed deterministic; grammar bound = corpus",
+        ref="4 C01"),
+    "C02": dict(
+        cat="other",
+        technique="type-resolved sibling agreement: the conversion resolved (Instance::try_resolve through Into->From) on each side of the vtable call must form an inverse pair of a fixed table, per argument/return position",
+        text="decides that the two sides of every position agree (inverse pair or both identity); that each pair is lossless for all values is C12/C13. "
+             "Value equality as such is implied, not enumerated.",
+        note="pair table (6 rows + identity) confirmed by reading; a behaviour-preserving rewrite into an unknown conversion idiom would need the table extended",
+        ref="4 C02"),
     "C03": dict(
         cat="proof",
         technique="rustc improper_ctypes lint on extern-declaration probes over the enumerated trait grammar + repr/ABI facts from a rustc_private driver",
